@@ -1,9 +1,12 @@
 import XpmVerif.Basic.JsonUtil
 import XpmVerif.Model.FileTokens
+import XpmVerif.Model.FileTokSteps
 /-! Line-protocol driver for M2' (file-based tokens, several processes): C08 / C09 file part.
     {"op":"init","total":n,"nproc":k,"req":[[name,count],…],"tolerant":b,"notifyMissing":b}
     {"op":"ev","e":["acquireBegin",p,f] | ["acquireEnd",p] | ["release",p,f] | ["fsEvent",p]
-                  | ["reclaim",p,f] | ["jobGone",f] | ["drop",p] | ["restart",p] | ["recreate",p]}
+                  | ["reclaim",p,f] | ["jobGone",f] | ["drop",p] | ["restart",p] | ["recreate",p]
+                  | ["relBegin",p,f] | ["relEnd",p,f]      (the two halves of a release, Model/FileTokSteps.lean)
+                  | ["watchDecide",p,f] | ["watchUnlink",p,f]  (the two halves of a watcher thread)}
     output: {"enabled":b,"ok":b,"notify":b,"disk":…,"procs":…,"ipc":…,"active":…} -/
 open Lean XpmVerif XpmVerif.J XpmVerif.FileTokens
 
@@ -63,6 +66,24 @@ def stepJ (d : DSt) (j : Json) : DSt × Json :=
       | "restart" => some (.restart (a 1))
       | "recreate" => some (.recreate (a 1))
       | _ => none
+    match J.str (e.getD 0 Json.null) with
+    | "relBegin" =>
+      let en := enabled d.s (.release (a 1) (a 2))
+      let (s', ok) := relBegin d.cfg d.s (a 1) (a 2)
+      let d' := { d with s := s' }
+      (d', observe d' en { ok := ok, notify := false })
+    | "relEnd" =>
+      let (s', ok) := relEnd d.s (a 2)
+      let d' := { d with s := s' }
+      (d', observe d' true { ok := ok, notify := true })
+    | "watchDecide" =>
+      let en := enabled d.s (.reclaim (a 1) (a 2))
+      let d' := { d with s := watchDecide d.s (a 1) (a 2) }
+      (d', observe d' en {})
+    | "watchUnlink" =>
+      let d' := { d with s := watchUnlink d.s (a 2) }
+      (d', observe d' true {})
+    | _ =>
     match ev with
     | none => (d, Json.mkObj [("error", Json.str "bad-event")])
     | some ev =>
